@@ -778,6 +778,9 @@ def drive_generic(env, g, b, h):
     call(g, 'update_link_property', node_a=b['switch'], node_b=fac, kind=A.REL_HAS, prop_name='Weight', prop_val=v('w'))
     call(g, 'update_link_properties', node_a=b['switch'], node_b=fac, kind=A.REL_HAS,
          props={'Weight': v('w'), 'Colour': v('blue')})
+    call(g, 'update_link_properties', node_a=b['switch'], node_b=fac, kind=A.REL_HAS, props={})
+    call(g, 'update_link_properties', node_a=b['switch'], node_b=fac, kind=A.REL_HAS, props={'Weight': v('w')})
+    call(g, 'update_node_properties', node_id=b['server'], props={'Custom_2': v('x')})
     call(g, 'unset_link_property', node_a=b['switch'], node_b=fac, kind=A.REL_HAS, prop_name='Note')
     call(g, 'update_link_property', node_a=pick_id(env, allids, 0.5), node_b=fac, kind=A.REL_CONNECTS, prop_name='Weight',
          prop_val=v('w'))
@@ -834,6 +837,9 @@ def drive_generic(env, g, b, h):
         call(g, 'merge_nodes', node_id=common[1], other_graph=h,
              merge_properties={'Name': 'discard', 'Capacities': 'overwrite', '`Custom.*`': 'combine', '`.*`': 'discard'})
     call(g, 'merge_nodes', pick_id(env, allids), h, None)
+    # the optional policy given but empty, and with a single entry (container boundaries of the map that is spelled into the text)
+    call(g, 'merge_nodes', node_id=pick_id(env, allids), other_graph=h, merge_properties={})
+    call(g, 'merge_nodes', node_id=pick_id(env, allids), other_graph=h, merge_properties={'Name': 'overwrite'})
     # serialization / clone / import bookkeeping
     s = call(g, 'serialize_graph')
     call(g, 'serialize_graph', format=GraphFormat.GRAPHML)
@@ -979,6 +985,9 @@ def drive_arm_adm_cbm(env, arm, b, d1, d2, want):
         ci.devices[c.resource_name] = c          # add_device() refuses a type-less request the query code supports
     call(cbm, 'get_matching_nodes_with_components', label=A.CLASS_NetworkNode, props=props, comps=ci)
     call(cbm, 'get_matching_nodes_with_components', label=A.CLASS_NetworkNode, props={}, comps=ci)
+    from fim.slivers.attached_components import AttachedComponentsInfo as _ACI
+    call(cbm, 'get_matching_nodes_with_components', label=A.CLASS_NetworkNode, props=props, comps=_ACI())
+    call(cbm, 'get_matching_nodes_with_components', label=A.CLASS_NetworkNode, props={}, comps=_ACI())
     for q in ('get_intersite_links', 'get_sites', 'get_disconnected_sites', 'get_connected_sites', 'get_facility_ports'):
         call(cbm, q)
     call(cbm, 'get_bqm')
